@@ -6,8 +6,9 @@ Directive syntax inside a template (`verus/units/<unit>.rs.in`):
   //@fn <relpath> [impl="<impl header prefix>"] name=<fn> [ret=<ident>] [nth=<k>]
   //@      [external_body] [vis=<text>] [rename=<ident>]
   //@| <spec text placed between the signature and the body>
-  //@loop <ordinal>
+  //@loop <ordinal> [iter=<ident>]
   //@| <invariant / decreases text placed between the loop head and its '{'>
+  //@      (iter=<ident>: `for PAT in EXPR` becomes `for PAT in <ident>: EXPR`, Verus's syntax for naming the ghost iterator)
   //@before "<statement prefix>" [nth=<k>]
   //@| <proof text placed before that statement>
   //@in_loop <ordinal>
@@ -24,6 +25,7 @@ What extraction changes (exhaustive; also recorded per function in the report):
   * the named return `-> T` becomes `-> (ret: T)` when ret= is given;
   * rename=<ident> renames the extracted fn (several files define `write`; obligations are named per fn);
   * spec text (`//@|` lines) is inserted at the three kinds of places above;
+  * with iter=<ident> a `for` loop's ghost iterator is named (`in <ident>: EXPR`), nothing of PAT or EXPR changes;
   * attributes and doc comments in front of the fn are not copied;
   * statements named by //@drop are removed (logging macros only);
   * with external_body the body is replaced by `{ unimplemented!() }` and the fn
@@ -168,12 +170,16 @@ class Expander:
         nth = int(kv.get("nth", "0"))
         # parse sub-blocks
         sig_spec, loops, befores, drops, after_texts, in_loops = [], {}, [], [], [], []
+        loop_iters = {}
         cur = sig_spec
         for b in block[k:]:
             if b.startswith("//@|"):
                 cur.append(b[4:].lstrip(" ") if b[4:5] == " " else b[4:])
             elif b.startswith("//@loop "):
                 cur = loops.setdefault(int(b.split()[1]), [])
+                for w in b.split()[2:]:
+                    if w.startswith("iter="):
+                        loop_iters[int(b.split()[1])] = w[5:]
             elif b.startswith("//@before "):
                 t = shlex.split(b[len("//@before "):])
                 _p, _kv = _parse_kv(t)
@@ -231,6 +237,15 @@ class Expander:
         ins, dels = [], []
         for ordinal, (kw, brace) in enumerate(S.loops(bo, end)):
             ins.append((brace, "\n" + "\n".join("            " + x for x in loops[ordinal]) + "\n        "))
+            if ordinal in loop_iters:
+                # `for PAT in EXPR {`  ->  `for PAT in <ghost>: EXPR {` : Verus's syntax for naming the loop's ghost
+                # iterator (pure annotation, like `-> (ret: T)`); only valid on a `for` loop
+                if not S.mask.startswith("for", kw):
+                    raise ExtractError("%s::%s: loop %d is not a `for` loop (iter= given)" % (rel, name, ordinal))
+                mo = re.search(r"\sin\s", S.mask[kw:brace])
+                if not mo:
+                    raise ExtractError("%s::%s: loop %d: no `in`" % (rel, name, ordinal))
+                ins.append((kw + mo.end(), loop_iters[ordinal] + ": "))
         for (prefix, k2, txt) in befores:
             try:
                 a, _b = S.find_stmt(bo, end, prefix, k2)
